@@ -78,7 +78,10 @@ func (fe functionExpr) CompletionAtPos(ctx context.Context, pos hcl.Pos) []lang.
 			_, lengthLastRune := utf8.DecodeLastRune(recoveredSuffixBytes)
 			recoveredSuffixBytes = recoveredSuffixBytes[:len(recoveredSuffixBytes)-lengthLastRune]
 
-			recoveredIdentifier := append(recoveredPrefixBytes, recoveredSuffixBytes...)
+			// (both are slices of the file's bytes: appending in place would write into the file)
+			recoveredIdentifier := make([]byte, 0, len(recoveredPrefixBytes)+len(recoveredSuffixBytes))
+			recoveredIdentifier = append(recoveredIdentifier, recoveredPrefixBytes...)
+			recoveredIdentifier = append(recoveredIdentifier, recoveredSuffixBytes...)
 
 			// check if our recovered identifier contains "::"
 			// Why two colons? For no colons the parser would return a traversal expression
